@@ -292,6 +292,27 @@ class Decl:
                 return False
         return True
 
+    def variant_shape_errors(self, mb, v):
+        """FromVariant's `supports(..)`: number of diagnostics (one per item that is not one of the five words; a non-list is one)"""
+        if v[0] != "list":
+            return None if v[0] in ("unread", "notform") else 1
+        items = self.nested_items(mb)
+        if items is None:
+            return None
+        if items == "parse-error":
+            return 1
+        n = 0
+        for it in items:
+            if it == "unread" or it[1] == "unread":
+                return None
+            if it[0] == "lit" or it[1] != 0:
+                n += 1
+            elif it[2] is None:
+                return None
+            elif it[2] not in ("any", "named", "newtype", "tuple", "unit"):
+                n += 1
+        return n
+
     def as_flag(self, v):
         if v[0] == "word":
             return True
@@ -359,6 +380,12 @@ class Model:
                 st["default"] = True          # any form is accepted; it installs a container default
                 return []
             if name == "supports":
+                if outer == "variant-supports":
+                    bad = dc.variant_shape_errors(mb, v)
+                    if bad is None:
+                        self.und("shape words of %s" % mb[-40:])
+                        return []
+                    return [X(None, mb, "unknown shape word") for _ in range(bad)]
                 ok = dc.as_shape_list(mb, v)
                 return value_error(mb, ok)
             if name in ("from_word", "from_none"):
@@ -397,7 +424,7 @@ class Model:
                 return value_error(mb, ok)
             raise AssertionError(name)
         core = ("default", "rename_all", "map", "and_then", "bound", "allow_unknown_fields")
-        known = (("attributes", "forward_attrs", "from_ident") + (("supports",) if outer == "supports" else ()) + core) if outer else (("from_word", "from_none") + core)
+        known = (("attributes", "forward_attrs", "from_ident") + (("supports",) if outer in ("supports", "variant-supports") else ()) + core) if outer else (("from_word", "from_none") + core)
         errs = self.option_items("di*.attrs", known, step)
         return errs, st
 
@@ -624,8 +651,13 @@ class Model:
         return out
 
 
-def model_from_derive_input(md, field_names):
-    """the FromDeriveInput derive: OuterFrom + FdiOptions on top of Core"""
+UNREAD_MAGIC = {"from_derive_input": ("ident", "vis", "generics"), "from_field": ("ident", "vis", "ty"), "from_variant": ("ident", "discriminant", "fields"),
+                "from_type_param": ("ident", "bounds", "default"), "from_attributes": ("ident",)}
+FORWARDED_MAGIC = {"from_derive_input": ("attrs", "data"), "from_field": ("attrs",), "from_variant": ("attrs",), "from_type_param": ("attrs",), "from_attributes": ("attrs",)}
+
+
+def model_from_derive_input(md, field_names, derive="from_derive_input"):
+    """the element-level derives: OuterFrom (+ the derive's own magic members and `supports`) on top of Core"""
     dc = md.dc
     dk = dc.d("di*.data#d")
     if dk is None:
@@ -635,7 +667,7 @@ def model_from_derive_input(md, field_names):
         return [X("can only be derived for structs", "di*.ident", "enum for an element-level trait")]
     if dk == 2:
         return [X("Unions are not supported", None, "union")]
-    cerrs, cst = md.container(False, outer="supports")
+    cerrs, cst = md.container(False, outer={"from_derive_input": "supports", "from_variant": "variant-supports"}.get(derive, True))
     if cerrs:
         return cerrs
     out = []
@@ -655,9 +687,9 @@ def model_from_derive_input(md, field_names):
         for i in range(n):
             fbase = "%s[%d]" % (lst, i)
             fname = field_names[i] if style == 0 else None
-            if fname in ("ident", "vis", "generics"):
+            if fname in UNREAD_MAGIC[derive]:
                 continue                                   # taken over as they are: their attributes are not read
-            if fname in ("attrs", "data"):
+            if fname in FORWARDED_MAGIC[derive]:
                 ferrs = md.forwarded_field(fbase)
                 out.extend(ferrs)
                 if fname == "attrs" and not ferrs:
@@ -672,6 +704,11 @@ def model_from_derive_input(md, field_names):
             out.append(X("can only be applied to one field", fl, "more than one flatten field"))
     if attrs_field is not None and not cst["forward_attrs"]:
         out.append(X("`forward_attrs` is not set", attrs_field, "attrs field without forward_attrs"))
+    if derive == "from_attributes" and not out:
+        parsed_newtype = style == 1 and dc.d(fb + ".Unnamed.0.unnamed#len") == 1
+        names = (cst["attributes"] - 1) if cst["attributes"] else 0
+        if not parsed_newtype and names == 0:
+            out.append(X("FromAttributes without attributes collects nothing", None, "FromAttributes without attributes"))
     return out
 
 
@@ -773,7 +810,7 @@ def job(ck, prog, natbin, focus, quick, derive="from_meta"):
         src = D.Src(prog, l, lambda l=l: ck.model_of(l.pc), darling=focus.only_darling, item_names=focus.item_names)
         dc = Decl(ck, prog, l, focus.item_names)
         md = Model(dc)
-        exp = md.from_meta() if derive == "from_meta" else model_from_derive_input(md, focus.field_names)
+        exp = md.from_meta() if derive == "from_meta" else model_from_derive_input(md, focus.field_names, derive)
         text = src.item_source(focus.field_names)
         req = "(derive %s %s)" % (derive, sx_str(text))
         if out[0] == "panic":
@@ -915,6 +952,23 @@ def prepare(ck):
         jobs.append(lambda sub, f=f: job(sub, prog, natbin, f, quick, derive="from_derive_input"))
     if fdi:
         ck.programs.add("darling_core::derive::from_derive_input")
+    # the four other element-level derives: same OuterFrom code, their own magic members, `supports` on FromVariant, the FromAttributes rule
+    magic3 = {"from_field": ["ident", "ty", "attrs"], "from_variant": ["fields", "discriminant", "attrs"], "from_type_param": ["bounds", "default", "attrs"],
+              "from_attributes": ["attrs", "field_b", "field_c"]}
+    for dv, names3 in magic3.items():
+        others = [
+            Focus("%s-shapes" % dv, body=("Struct", "Enum", "Union"), style=("Named", "Unnamed", "Unit"), nf=(0, 2), nv=(0, 1), field_names=["field_a", "field_b", "field_c"]),
+            Focus("%s-container" % dv, body=("Struct",), style=("Named", "Unnamed"), nf=(1, 1), cattrs=(0, 1), items=(0, 2), simple=True, field_names=["field_a", "field_b", "field_c"],
+                  item_names=["attributes", "forward_attrs", "supports", "from_ident", "default", "zzz"]),
+            Focus("%s-magic" % dv, body=("Struct",), style=("Named",), nf=(3, 3), fattrs=(0, 1), items=(0, 1), simple=True, field_names=names3,
+                  item_names=["forward_attrs", "with", "rename", "zzz"]),
+        ]
+        if only:
+            others = [f for f in others if f.tag in only.split(",")]
+        for f in others:
+            jobs.append(lambda sub, f=f, dv=dv: job(sub, prog, natbin, f, quick, derive=dv))
+        if others:
+            ck.programs.add("darling_core::derive::%s" % dv)
     if not only:
         ck.programs.add("darling_core::derive::from_derive_input (supports words)")
         jobs.append(lambda sub: supports_job(sub, prog, natbin, quick))
